@@ -23,6 +23,7 @@ import (
 
 	"gorumsim/simnet"
 	"gorumsim/simrt"
+	"gorumsim/simrt/dsync"
 	"gorumsim/zsvc"
 )
 
@@ -59,7 +60,7 @@ type World struct {
 	net   *simnet.Net
 	rng   *rand.Rand // driver only
 
-	mu     sync.Mutex
+	mu     hmutex
 	seq    uint64
 	step   int
 	events []Event
@@ -88,6 +89,7 @@ type World struct {
 	lastTask    string
 	simTime     time.Duration
 	faults      map[string]int
+	stalls      *dsync.StallConfig
 	cancels     []*cancelAct
 	pending     []*worldAct // one-shot harness actions (close manager, crash, ...)
 	sigParts    []string
@@ -391,3 +393,21 @@ func (w *World) nodeOf(m *Mgr, si int) *zsvc.Node {
 
 // elapsed returns simulated time since the start of the run.
 func (w *World) elapsed() time.Duration { return time.Since(w.start) }
+
+// hmutex is the harness lock. The harness calls small library functions (Error, NodeIDs, ...) while
+// holding it; in race-detector runs such a call must not be stalled on the fake clock (T6): somebody
+// may wait for the lock in a real Mutex.Lock, which is not a durable block in synctest's sense, and the
+// clock would never advance. The holder therefore raises a flag that dsync.Stall reads; flag accesses
+// are excluded from race instrumentation and create no happens-before edge (the only reader that must
+// see the flag raised is the holder itself).
+type hmutex struct{ m sync.Mutex }
+
+func (h *hmutex) Lock() {
+	h.m.Lock()
+	dsync.HoldStalls(true)
+}
+
+func (h *hmutex) Unlock() {
+	dsync.HoldStalls(false)
+	h.m.Unlock()
+}
